@@ -61,7 +61,8 @@ class Char(bytes, BaseType):
         buf = []
         while True:
             byte = stream.read(1)
-            if byte == b"":
+            if not byte:
+                # (also the empty string of a stream that is not binary: it would never compare equal to b"")
                 raise EOFError("Read 0 bytes, but expected 1")
 
             if byte == b"\x00":
